@@ -36,13 +36,17 @@ PROP = dict(
          'x SEQUENCE form {DER, trailing bytes inside/after, longer length form, 84 length, indefinite, length too short / beyond the buffer}, judged from the bytes: must accept iff the strict DER '
          'reading (own reader, each INTEGER cross-checked with d2i/i2d_ASN1_INTEGER) gives r,s in [1,n-1] that verify, may accept only if the unsigned-contents reading verifies, else must refuse; '
          'the same value/form/SEQUENCE grid on the RSAPublicKey INTEGERs (N, e, -N, -e) parsed with psRsaParseAsnPubKey, then a genuine and a wrong-digest signature verified under the parsed key; points {off-curve variants, infinity encodings, coordinates >= p, wrong length, compressed/hybrid, wrong curve, every prefix}; '
-         'DH public values {0,1,2,p-2,p-1,p,p+1,2p-1,p+y,random>=p}; X25519 low-order / non-canonical / random u; Ed25519 {bit flips in R,S,msg,key, S+kL, S=L, R=0, S=0}. '
+         'DH public values {0,1,2,p-2,p-1,p,p+1,2p-1,p+y,random>=p}; X25519 low-order / non-canonical / random u; Ed25519 {bit flips in R,S,msg,key, S+kL, S=L, R=0, S=0}; the 8 points of small order in all 14 encodings (both x sign bits, y+p forms; table derived with own '
+         'Edwards arithmetic on BN) as public key with private-key-free signatures {R=identity,S=0; R=any torsion encoding; R=-hA solved over the 8 points; R=sB,S=s; foreign genuine signature} over 16 messages per key, '
+         'and with an honest key {R=each identity encoding or torsion point with S=h*a; mixed-order key A+T signed with a; mixed-order R=rB+T} over 6 messages: accept only if OpenSSL accepts and [8]A != 0. '
          'Oracle = accept iff the block recovered with OpenSSL equals the one canonical encoding / is a valid PSS encoding / SEC1 4.1.4 holds on raw r,s / OpenSSL accepts (Ed25519), '
          'results byte-equal to OpenSSL for signing (deterministic schemes), encryption round trips and shared secrets; no sanitizer report. '
          'Non-trivial = every case (each carries an edit class or a boundary key/message); distinct = distinct (primitive, key size/curve, hash, edit class, position, entry point).',
     assumptions=['OpenSSL 3.0 libcrypto is correct for RSA/EC/DH/Ed25519/X25519 arithmetic and hashing',
                  'digests handed to ECDSA on P-521 are at most 65 bytes (no supported hash is longer); longer ones are clipped by the generator',
-                 'a tampered Ed25519 public key that only MatrixSSL refuses (small-order check) is not a violation'],
+                 'a tampered Ed25519 public key that only MatrixSSL refuses (small-order check) is not a violation',
+                 'Ed25519 is built with ED25519_COMPAT (default): small-order R and non-canonical A/R are not refused as such, only S >= L and small-order A; '
+                 'the verdict on such R follows OpenSSL (cofactorless equation, byte comparison of R); a MatrixSSL that is stricter there is counted, not judged'],
     targets=[
         dict(name='c11_rsa', src=['props/C11/rsa.cc'] + _COMMON, quick=dict(cases=32000, secs=40), thorough=dict(cases=2000000, secs=300), **_T),
         dict(name='c11_ecdsa', src=['props/C11/ecdsa.cc'] + _COMMON, quick=dict(cases=16000, secs=40), thorough=dict(cases=400000, secs=260), **_T),
